@@ -70,12 +70,15 @@ def script_for():
 DV, WV, AV, NSV = z3.Int("depth"), z3.Int("width"), z3.Int("algo"), z3.Int("namespace")
 
 
-def run_config(ps, M, shim, native_root=None, enc=None):
+def run_config(ps, M, shim, native_root=None, enc=None, diag=True):
     depth = ps.choose(DV, 1, 7)
     width = ps.choose(WV, 1, 5)
     algo = ALGOS[ps.choose(AV, 0, len(ALGOS))]
     # the namespace varies along a diagonal of the configuration space (it does not interact with the sharding)
-    ps.constrain(z3.And(NSV >= 0, NSV < len(NSLIST), NSV == (DV + WV + AV) % len(NSLIST)))
+    # (quick tier; the thorough tier takes the full product)
+    ps.constrain(z3.And(NSV >= 0, NSV < len(NSLIST)))
+    if diag:
+        ps.constrain(NSV == (DV + WV + AV) % len(NSLIST))
     ns = NSLIST[ps.choose(NSV, 0, len(NSLIST))]
     script = script_for()
     if native_root is None:
@@ -167,8 +170,8 @@ def e2(run, tier):
         hist = []
 
         def one(p):
-            r = run_config(p, M, shim)
-            hist.append((r["depth"], r["width"], r["algo"]))
+            r = run_config(p, M, shim, diag=tier != "thorough")
+            hist.append((r["depth"], r["width"], r["algo"], NSLIST.index(r["ns"])))
             r["history"] = list(hist)
             return r
         recs = ps.explore(one)
@@ -177,7 +180,7 @@ def e2(run, tier):
     for recs, st in outs:
         run.add_stats(st)
         for r in recs:
-            run.case(("tree", r["depth"], r["width"], r["algo"]), dict(depth=r["depth"], width=r["width"],
+            run.case(("tree", r["depth"], r["width"], r["algo"], r["ns"]), dict(depth=r["depth"], width=r["width"],
                                                                         algorithm=r["algo"], files=r["files"]))
             run.oblige(not r["bad"])
             run.reach["layout-ok" if not r["bad"] else "layout-differs"] += 1
@@ -196,9 +199,10 @@ def replay_tree(payload):
     root = scratch_root()
     try:
         r = None
-        for (d, w_, a) in payload.get("history") or [(payload["depth"], payload["width"], payload["algo"])]:
-            ps = PathSym([DV == d, WV == w_, AV == ALGOS.index(a)])
-            r = ps.explore(lambda p: run_config(p, MN, None, native_root=root))[0]
+        for h in payload.get("history") or [(payload["depth"], payload["width"], payload["algo"])]:
+            d, w_, a = h[:3]
+            pins = [DV == d, WV == w_, AV == ALGOS.index(a)] + ([NSV == h[3]] if len(h) > 3 else [])
+            r = PathSym(pins).explore(lambda p: run_config(p, MN, None, native_root=root, diag=len(h) <= 3))[0]
         return bool(r["bad"]), ("native run (unpatched code, real file system) of the script under depth=%d width=%d %s "
                                 "after %d earlier stores in the same process: %s" % (
                                     r["depth"], r["width"], r["algo"], len(payload.get("history") or [1]) - 1, r["bad"]))
@@ -298,5 +302,6 @@ def main(tier, replay_payload=None):
                        "equal the expected tree. The configuration selectors are finite: the solver's role in E2 is "
                        "exhaustive enumeration, not arithmetic.")
     run.outside = ["depth*width >= digest length (not a valid configuration)", "pids/contents outside the script"]
-    run.need("all 120 configurations explored", run.reach["layout-ok"] + run.reach["layout-differs"] == 120)
+    run.need("all 120 configurations explored (x 6 namespaces in the thorough tier)",
+             run.reach["layout-ok"] + run.reach["layout-differs"] == (720 if tier == "thorough" else 120))
     return run.finish()
